@@ -56,10 +56,21 @@ def _calls_of(F, caller, callee):
         return len(cal["blocks"]) <= 150
     _WANTS.append(want)   # keep alive: the inline cache is keyed by id(want)
     for g0 in with_closures(F, c):
-        g = mir.inline_calls(F, g0, want=want, depth=2)
+        g = mir.inline_calls(F, g0, want=want, depth=3)
+        dg = None
         for bi, t in mir.calls(g):
             if (t.get("resolved") or t.get("callee")) == callee or t.get("callee") == callee:
                 out.append((g, bi, t))
+            elif (t.get("callee") or "") in ("std::ops::Fn::call", "std::ops::FnMut::call_mut", "std::ops::FnOnce::call_once") and len(t["args"]) == 2:
+                # the callee handed over as a function value (`helper(x, ops::slot_to_time)`) and called there
+                dg = dg or mir.DefUse(g)
+                po = mir.provenance(g, dg, t["args"][0])
+                if po and all(o.kind == "const" and (o.const.get("fn_resolved") or o.const.get("fn")) == callee for o in po):
+                    tup = [o for o in mir.provenance(g, dg, t["args"][1]) if o.kind == "agg" and "tuple" in o.rv]
+                    if len(tup) == 1:
+                        t2 = dict(t)
+                        t2["args"] = list(tup[0].rv["ops"])
+                        out.append((g, bi, t2))
     return out
 
 
